@@ -309,7 +309,28 @@ class PureEval:
                 return self.lib[node.id]
             if node.id in ("True", "False", "None"):
                 return {"True": True, "False": False, "None": None}[node.id]
+            ma = getattr(self, "module_assigns", None)
+            if ma and node.id in ma and len(ma[node.id]) == 1:
+                return self.ev(ma[node.id][0], {})
             raise FevalError(f"free name {node.id}")
+        if isinstance(node, (ast.GeneratorExp, ast.ListComp, ast.SetComp)):
+            out = []
+
+            def rec(gi, e):
+                if gi == len(node.generators):
+                    out.append(self.ev(node.elt, e))
+                    return
+                g = node.generators[gi]
+                seq = list(self.ev(g.iter, e))
+                if len(seq) > 64:
+                    raise FevalError("comprehension too long")
+                for x in seq:
+                    e2 = dict(e)
+                    self._bind(g.target, x, e2)
+                    if all(self.ev(c, e2) for c in g.ifs):
+                        rec(gi + 1, e2)
+            rec(0, dict(env))
+            return set(out) if isinstance(node, ast.SetComp) else tuple(out)
         if isinstance(node, ast.Attribute):
             base = self.ev(node.value, env)
             if node.attr in ("real", "imag") and isinstance(base, (complex, float, int)):
